@@ -73,6 +73,21 @@ def judge_rt(op, impl, model, spec):
     return "ok" if impl == model else "corr"
 
 
+def judge_rt3(op, impl, model, spec):
+    w = op.split(" ")
+    v = T.parse_val(w[2])
+    want = T.spec_enc(v)
+    mw = model.split(" ")
+    if not (len(mw) == 4 and mw[1] == "ok" and mw[2] == w[2]):
+        return "ok"                     # a value that does not round-trip on its own (K6 / K7 / the Option-in-Option exclusion): judged by `roundtrip`
+    iw = impl.split(" ")
+    if len(iw) != 5 or iw[0] != want.hex() * 3 or iw[1] != w[2] or iw[3] != w[2] or iw[2] not in (w[2], "N") or int(iw[4]) != 3 * len(want):
+        return "violation"
+    if iw[2] == "N" and want != b"\xf6":
+        return "violation"
+    return "ok"
+
+
 def judge_de(op, impl, model, spec):
     w = op.split(" ")
     t = TREES[w[1]]
@@ -188,9 +203,15 @@ def streams(rng, tier):
                 rule="de <type> <strict prefix | one-byte mutation of an encoding>: model comparison, no panic",
                 nontrivial=lambda op, impl: impl.startswith("err"))
     s4 = narrow_stream(rng, tier)
-    for s in (s1, s2, s3, s4):
+    # ONE Serializer / Deserializer for three values in a row: value, Some(value), value
+    r3 = ["rt3" + o[2:] for o in rt_ops[::3] if len(o) < 3000]
+    s5 = Stream("one-serializer-three-values", "hserde", r3, model_ops=["rt" + o[3:] for o in r3], judge=judge_rt3,
+                nontrivial=lambda op, impl: len(impl.split(" ")) == 5,
+                rule="rt3 <type> <value>: value, Some(value), value through ONE Serializer and back through ONE Deserializer: three times the bytes of the "
+                     "value alone (the model's `rt`), three times the value, the end position")
+    for s in (s1, s2, s3, s4, s5):
         s.shrinkable = False
-    return [s1, s2, s3, s4]
+    return [s1, s2, s3, s4, s5]
 
 
 def f64_narrow_patterns(rng, tier):
@@ -266,6 +287,10 @@ def replay_streams(rp):
     op = rp.get("original_op") or rp["op"]
     if op.startswith("fnarrow"):
         s = Stream("replay", "hcore", [op], judge=judge_narrow)
+        s.shrinkable = False
+        return [s]
+    if op.startswith("rt3 "):
+        s = Stream("replay", "hserde", [op], model_ops=["rt" + op[3:]], judge=judge_rt3)
         s.shrinkable = False
         return [s]
     j = judge_rt if op.startswith("rt ") else judge_de
